@@ -7,6 +7,7 @@ package props
 
 import (
 	"bytes"
+	"encoding/binary"
 	"encoding/hex"
 	"encoding/json"
 	"fmt"
@@ -54,6 +55,16 @@ var c20Types = map[string]reflect.Type{
 	"posgenesis":  reflect.TypeOf(postypes.GenesisState{}),
 	"authgenesis": reflect.TypeOf(authtypes.GenesisState{}),
 	"govgenesis":  reflect.TypeOf(govtypes.GenesisState{}),
+	"supply":      reflect.TypeOf((*authexported.SupplyI)(nil)).Elem(),
+	"upgrade":     reflect.TypeOf(govtypes.Upgrade{}),
+	"acl":         reflect.TypeOf(govtypes.ACL{}),
+	"feemultis":   reflect.TypeOf(authtypes.FeeMultipliers{}),
+	"uint":        reflect.TypeOf(sdk.Uint{}),
+	"coin":        reflect.TypeOf(sdk.Coin{}),
+	"deccoins":    reflect.TypeOf(sdk.DecCoins{}),
+	"multisig":    reflect.TypeOf(crypto.MultiSignature{}),
+	"missedblock": reflect.TypeOf(postypes.MissedBlock{}),
+	"pubkey":      reflect.TypeOf((*crypto.PublicKey)(nil)).Elem(),
 }
 
 // ---------------------------------------------------------------------------------------------
@@ -253,6 +264,44 @@ func genValue(t *rapid.T, kind string) interface{} {
 			g.Params.FeeMultiplier = authtypes.FeeMultipliers{FeeMultis: []authtypes.FeeMultiplier{{Key: "send", Multiplier: rapid.Int64().Draw(t, "m")}}, Default: rapid.Int64().Draw(t, "d")}
 		}
 		return g
+	case "supply":
+		var sup authexported.SupplyI = authtypes.Supply{Total: genCoinsV(t, "total")}
+		return &sup
+	case "upgrade":
+		return govtypes.Upgrade{Height: rapid.Int64().Draw(t, "uh"), Version: rapid.SampledFrom([]string{"", "0.0.1", "ü", "1.0.0-rc1"}).Draw(t, "uv")}
+	case "acl":
+		var acl govtypes.ACL
+		n := rapid.IntRange(0, len(simParamKeys)).Draw(t, "nacl")
+		for i := 0; i < n; i++ {
+			acl = append(acl, govtypes.ACLPair{Key: rapid.SampledFrom(append([]string{"", "a/b/c", "ü/x"}, simParamKeys...)).Draw(t, "k"), Addr: genAddrV(t, "o")})
+		}
+		return acl
+	case "feemultis":
+		fm := authtypes.FeeMultipliers{Default: rapid.Int64().Draw(t, "d")}
+		n := rapid.IntRange(0, 3).Draw(t, "nfm")
+		for i := 0; i < n; i++ {
+			fm.FeeMultis = append(fm.FeeMultis, authtypes.FeeMultiplier{Key: rapid.SampledFrom([]string{"", "send", "stake_validator", "ü"}).Draw(t, "fk"), Multiplier: rapid.Int64().Draw(t, "fmul")})
+		}
+		return fm
+	case "uint":
+		return sdk.NewUintFromBigInt(genInRange(t, "uint", 256, false))
+	case "coin":
+		return sdk.Coin{Denom: rapid.SampledFrom([]string{"upokt", "abc", "a1b2c3d4e5f6g7h8"}).Draw(t, "cd"), Amount: genIntV(t, "ca", false)}
+	case "deccoins":
+		var dc sdk.DecCoins
+		for i, d := range []string{"abc", "upokt", "zzz"} {
+			if rapid.Bool().Draw(t, fmt.Sprintf("dc%d", i)) {
+				dc = append(dc, sdk.DecCoin{Denom: d, Amount: sdk.Dec{Int: genInRange(t, "dca", decBits, false)}})
+			}
+		}
+		return dc
+	case "multisig":
+		return crypto.MultiSignature{Sigs: rapid.SliceOfN(rapid.SliceOfN(rapid.Byte(), 0, 70), 0, 4).Draw(t, "sigs")}
+	case "missedblock":
+		return postypes.MissedBlock{Index: rapid.Int64().Draw(t, "mi"), Missed: rapid.Bool().Draw(t, "mm")}
+	case "pubkey":
+		pk := genPubV(t, "pk", false, 0)
+		return &pk
 	case "govgenesis":
 		g := govtypes.GenesisState{Params: govtypes.Params{ACL: govtypes.ACL{}, DAOOwner: genAddrV(t, "dao"), Upgrade: govtypes.NewUpgrade(rapid.Int64().Draw(t, "uh"), "v")}, DAOTokens: genIntV(t, "tokens", false)}
 		n := rapid.IntRange(0, 3).Draw(t, "nacl")
@@ -264,7 +313,8 @@ func genValue(t *rapid.T, kind string) interface{} {
 	panic("harness: bad kind " + kind)
 }
 
-var c20ValueKinds = []string{"stdtx", "stdtx", "stdtx", "stdtx", "account", "account", "validator", "validator", "signinfo", "coins", "int", "dec", "address", "posparams", "posgenesis", "authgenesis", "govgenesis"}
+var c20ValueKinds = []string{"stdtx", "stdtx", "stdtx", "stdtx", "account", "account", "validator", "validator", "signinfo", "coins", "int", "dec", "address", "posparams", "posgenesis", "authgenesis", "govgenesis",
+	"supply", "upgrade", "acl", "feemultis", "coin", "deccoins", "multisig", "missedblock", "pubkey"} // (sdk.Uint is no wire or storage type of posmint: observation L5)
 var c20Decoders = []string{"tx", "tx", "account", "validator", "pubkey", "intjson", "decjson", "decstr", "coinsstr", "intamino", "stdtxjson"}
 
 func genC20(t *rapid.T, tier string) interface{} {
@@ -280,11 +330,23 @@ func genC20(t *rapid.T, tier string) interface{} {
 				// a value the JSON encoder refuses (e.g. a nil numeric inside an interface): nothing to round-trip
 				return c20Item{Kind: "skip"}
 			}
-			return c20Item{Kind: kind, JSON: string(js)}
+			it := c20Item{Kind: kind, JSON: string(js)}
+			if !c20JSONOnly[kind] {
+				// the binary encoding of the ORIGINAL value: what its JSON encoding decodes to must encode to the same bytes
+				if res := catch(func() { it.Hex = hex.EncodeToString(simCdc.MustMarshalBinaryBare(v)) }); res.panicked {
+					it.Hex = ""
+				}
+			}
+			return it
 		case 5, 6, 7: // hostile bytes for a decoder
 			dec := rapid.SampledFrom(c20Decoders).Draw(t, "decoder")
 			return c20Item{Kind: "bytes:" + dec, Hex: hex.EncodeToString(genHostile(t, dec))}
 		case 8:
+			if rapid.IntRange(0, 2).Draw(t, "addrkeys") == 0 {
+				ab := rapid.SliceOfN(rapid.SampledFrom([]byte{0, 1, 0x7f, 0x80, 0xff}), 20, 20)
+				ix := rapid.SampledFrom([]int64{0, 1, 255, 256, 257, 65535, 65536, 1 << 31, 1<<62 + 1})
+				return c20Item{Kind: "addrkeys", A: hex.EncodeToString(ab.Draw(t, "ka")), B: hex.EncodeToString(ab.Draw(t, "kb")), X: ix.Draw(t, "ki"), Y: ix.Draw(t, "kj")}
+			}
 			return c20Item{Kind: "rankkeys", X: rapid.SampledFrom([]int64{1000000, 1999999, 2000000, 1 << 40, 9223372036854775807, 0, 255000000, 256000000, 65535000000, 65536000000}).Draw(t, "sx") + int64(rapid.IntRange(0, 2).Draw(t, "dx")),
 				Y: rapid.SampledFrom([]int64{1000000, 1999999, 2000000, 1 << 40, 9223372036854775806, 0, 255000000, 256000000, 65535000000, 65536000000}).Draw(t, "sy") + int64(rapid.IntRange(0, 2).Draw(t, "dy")),
 				A: hex.EncodeToString(rapid.SliceOfN(rapid.SampledFrom([]byte{0, 1, 0x7f, 0x80, 0xff}), 20, 20).Draw(t, "a")), B: hex.EncodeToString(rapid.SliceOfN(rapid.SampledFrom([]byte{0, 1, 0x7f, 0x80, 0xff}), 20, 20).Draw(t, "b"))}
@@ -460,6 +522,8 @@ func execC20(prog interface{}, c *Case) *Violation {
 			nt, v = c20RankKeys(it)
 		case it.Kind == "timekeys":
 			nt, v = c20TimeKeys(it)
+		case it.Kind == "addrkeys":
+			nt, v = c20AddrKeys(it)
 		default:
 			nt, v = c20RoundTrip(it)
 		}
@@ -507,6 +571,9 @@ func c20RoundTrip(it *c20Item) (bool, *Violation) {
 	})
 	if res.panicked {
 		return false, violf("C20/encode-panics", "%s: encoding a decoded value panics: %v\n%s", it.Kind, res.pv, it.JSON)
+	}
+	if it.Hex != "" && !bytes.Equal(bare, unhex(it.Hex)) {
+		return false, violf("C20/json-loses-content", "%s: the value decoded from its own JSON encoding differs from the original: binary encodings %x (original) vs %x (after JSON)\nJSON %s", it.Kind, unhex(it.Hex), bare, it.JSON)
 	}
 	// JSON is stable
 	if canonJSON(js0) != canonJSON([]byte(it.JSON)) {
@@ -801,6 +868,69 @@ func c20RankKeys(it *c20Item) (bool, *Violation) {
 		return true, violf("C20/rank-key-order", "keys of (power %d, %x) and (power %d, %x) compare %d, values compare %d", pa, a, pb, b, got, want)
 	}
 	return pa == pb || pa/256 != pb/256, nil
+}
+
+// c20AddrKeys: every address-keyed store key decodes back to its address, different (address, index) pairs
+// give different keys, the key families do not overlap, and building one key never alters another.
+func c20AddrKeys(it *c20Item) (bool, *Violation) {
+	a, b := unhex(it.A), unhex(it.B)
+	if len(a) != sdk.AddrLen || len(b) != sdk.AddrLen || it.X < 0 || it.Y < 0 {
+		return false, nil
+	}
+	type fam struct {
+		name string
+		mk   func(sdk.Address) []byte
+		back func([]byte) []byte
+	}
+	strip := func(k []byte) []byte { return k[1:] }
+	fams := []fam{
+		{"KeyForValByAllVals", postypes.KeyForValByAllVals, postypes.AddressFromKey},
+		{"KeyForValidatorPrevStateStateByPower", postypes.KeyForValidatorPrevStateStateByPower, postypes.AddressFromKey},
+		{"KeyForValidatorAward", postypes.KeyForValidatorAward, postypes.AddressFromKey},
+		{"KeyForValidatorBurn", postypes.KeyForValidatorBurn, postypes.AddressFromKey},
+		{"GetValidatorSigningInfoKey", postypes.GetValidatorSigningInfoKey, func(k []byte) []byte { return postypes.GetValidatorSigningInfoAddress(k) }},
+		{"GetValMissedBlockPrefixKey", postypes.GetValMissedBlockPrefixKey, strip},
+		{"GetAddrPubkeyRelationKey", func(x sdk.Address) []byte { return postypes.GetAddrPubkeyRelationKey(x) }, strip},
+		{"auth.AddressStoreKey", authtypes.AddressStoreKey, strip},
+	}
+	first := map[byte]string{}
+	for _, f := range fams {
+		ka := append([]byte{}, f.mk(a)...)
+		kaLive := f.mk(a)
+		kb := f.mk(b)
+		if !bytes.Equal(kaLive, ka) {
+			return true, violf("C20/addr-key-aliased", "%s: the key built for %x changed to %x when the key for %x was built", f.name, a, kaLive, b)
+		}
+		var back []byte
+		if res := catch(func() { back = f.back(ka) }); res.panicked || !bytes.Equal(back, a) {
+			return true, violf("C20/addr-key-parse", "%s(%x) = %x decodes back to %x (panic %v)", f.name, a, ka, back, res.pv)
+		}
+		if bytes.Equal(a, b) != bytes.Equal(ka, kb) {
+			return true, violf("C20/addr-key-collision", "%s: addresses %x and %x give keys %x and %x", f.name, a, b, ka, kb)
+		}
+		if len(ka) != 1+sdk.AddrLen {
+			return true, violf("C20/addr-key-parse", "%s(%x) = %x is not prefix byte + address", f.name, a, ka)
+		}
+		if f.name != "auth.AddressStoreKey" { // (the auth store is another store)
+			if other, dup := first[ka[0]]; dup {
+				return true, violf("C20/addr-key-collision", "%s and %s share the prefix byte %02x", f.name, other, ka[0])
+			}
+			first[ka[0]] = f.name
+		}
+	}
+	// missed-block keys: (address, index) is recoverable and injective
+	ma, mb := postypes.GetValMissedBlockKey(a, it.X), postypes.GetValMissedBlockKey(b, it.Y)
+	if !bytes.HasPrefix(ma, postypes.GetValMissedBlockPrefixKey(a)) || len(ma) != 1+sdk.AddrLen+8 {
+		return true, violf("C20/addr-key-parse", "missed-block key %x of (%x,%d) does not extend the validator's prefix key", ma, a, it.X)
+	}
+	if !bytes.Equal(ma[1:1+sdk.AddrLen], a) || int64(binary.LittleEndian.Uint64(ma[1+sdk.AddrLen:])) != it.X {
+		return true, violf("C20/addr-key-parse", "missed-block key %x does not carry (%x,%d)", ma, a, it.X)
+	}
+	same := bytes.Equal(a, b) && it.X == it.Y
+	if same != bytes.Equal(ma, mb) {
+		return true, violf("C20/addr-key-collision", "missed-block keys of (%x,%d) and (%x,%d): %x and %x", a, it.X, b, it.Y, ma, mb)
+	}
+	return !bytes.Equal(a, b), nil
 }
 
 func c20TimeKeys(it *c20Item) (bool, *Violation) {
